@@ -17,11 +17,19 @@ package c19
 //	            O4 = opaque bound to client 0, S4 = client 2's signature, K4 = client 2's key
 //	          5 server-initiated, client 3 (secp256k1), server 0, host B
 //
+//	F<k>      a bearer token that NO server minted: forged at request time for client 0 and the
+//	          request's Host under a secret anybody could try - k = 0 no key, 1 zeros, 2 the
+//	          hostname, 3 the target's public key, 4 the secret of an unrelated deployment, 5 the
+//	          provided secret of the other instance (if it has one)
+//
+// Server 0 is given an HmacKey by the application, server 1 is left to draw its own secret.
+//
 // ctl: bit 0 target instance, bits 1-2 Host (A, B, invalid, upper-cased A), bits 3-5 virtual
 // sleep before the request (0, 1s, 59s, 61s, 4m59s, 5m1s, 10m1s, 24h). Server 0 has TokenTTL 10
 // min, server 1 has 1 min.
 
 import (
+	"bytes"
 	"strings"
 	"testing"
 	"testing/synctest"
@@ -115,6 +123,18 @@ func mintMaterial(w *world, used [6]bool) material {
 	return m
 }
 
+// forgedTokens fills F0..F5 (see the file comment). None of the keys is the target's secret.
+func forgedTokens(m material, w *world, target *server, host string) {
+	tok := forgedState{IsToken: true, PeerID: w.idents[0].ID, Hostname: host, CreatedTime: time.Now()}
+	foreign := ownSecret(17)
+	if o := w.other(target, 0); o.hmacKey != nil && o.domain != target.domain {
+		foreign = o.hmacKey
+	}
+	for k, key := range [][]byte{nil, make([]byte, 32), []byte(host), target.pub, ownSecret(17), foreign} {
+		m["F"+string(rune('0'+k))] = b64(forge(key, tok))
+	}
+}
+
 func expand(tmpl []byte, m material) string {
 	var b strings.Builder
 	for i := 0; i < len(tmpl); i++ {
@@ -178,6 +198,14 @@ var fuzzSeeds = []string{
 	`libp2p-PeerID opaque="AAAAAAAAAAAAAAAAAAAAAAAAAAAAAAAAAAAAAAAAAAA=", sig="AAAA"`,
 	`libp2p-PeerID bearer="AAAAAAAAAAAAAAAAAAAAAAAAAAAAAAAAAAAAAAAAAAB7ImlzLXRva2VuIjp0cnVlfQ=="`,
 	`Bearer abc`,
+	// minted by nobody (must stay at the end: validSeeds refers to indices above)
+	`libp2p-PeerID bearer="$F0"`,
+	`libp2p-PeerID bearer="$F1"`,
+	`libp2p-PeerID bearer="$F2"`,
+	`libp2p-PeerID bearer="$F3"`,
+	`libp2p-PeerID bearer="$F4"`,
+	`libp2p-PeerID bearer="$F5"`,
+	`libp2p-PeerID public-key="$K0", challenge-server="$H0", sig="$S0", opaque="$F0"`,
 }
 
 // validSeeds: template, ctl under which an honest deployment must accept it (harness precondition;
@@ -198,14 +226,17 @@ type fuzzOutcome struct {
 
 func runFuzzCase(t *testing.T, tmpl []byte, ctl uint16) (out fuzzOutcome) {
 	synctest.Test(t, func(t *testing.T) {
-		w := newWorld(t, [2]srvConf{{"ed25519", 10 * time.Minute, false}, {"ed25519", time.Minute, false}}, fuzzIdentities())
+		w := newWorld(t, twoServers(srvConf{keyType: "ed25519", ttl: 10 * time.Minute, secret: secretOwn}, srvConf{keyType: "ed25519", ttl: time.Minute, secret: secretUnset}), fuzzIdentities())
 		m := mintMaterial(w, sessionsUsed(tmpl))
-		out.hdr = expand(tmpl, m)
 		target := w.srv[ctl&1]
 		host := [...]string{hostNames[0], hostNames[1], invalidHost, strings.ToUpper(hostNames[0])}[(ctl>>1)&3]
 		if d := fuzzSleeps[(ctl>>3)&7]; d > 0 {
 			time.Sleep(d)
 		}
+		if bytes.Contains(tmpl, []byte("$F")) {
+			forgedTokens(m, w, target, host)
+		}
+		out.hdr = expand(tmpl, m)
 		var authz *string
 		if len(tmpl) > 0 {
 			authz = &out.hdr
@@ -232,6 +263,7 @@ func FuzzAuthorization(f *testing.F) {
 		f.Add([]byte(s), uint16(i*8+i%8)) // some other target / host / time
 		f.Add([]byte(s), uint16(4<<3))    // shortly before the challenge lifetime ends
 		f.Add([]byte(s), uint16(5<<3))    // just after
+		f.Add([]byte(s), uint16(1))       // the instance that drew its own secret
 	}
 	for _, vs := range validSeeds {
 		f.Add([]byte(vs.tmpl), vs.ctl)
